@@ -369,6 +369,8 @@ class ShardResult:
         self.notes = []
         self.truncated = False
         self.inconclusive = None
+        self.covered = {}               # finite sub-space -> set of items reached (strings)
+        self.cover_sizes = {}           # finite sub-space -> its size, when the monitor knows it
 
     def count(self, name, n=1):
         self.counters[name] = self.counters.get(name, 0) + n
@@ -385,6 +387,16 @@ class ShardResult:
         else:
             self.violations.append({'sig': sig, 'what': what, 'witness': witness, 'n': 1})
 
+    def cover(self, space, item, size=None):
+        """record that `item` of the finite sub-space `space` was reached by a judged case"""
+        st = self.covered.get(space)
+        if st is None:
+            st = self.covered[space] = set()
+        if len(st) < 200000:
+            st.add(item if isinstance(item, str) else repr(item))
+        if size is not None:
+            self.cover_sizes[space] = size
+
     def sample(self, item, cap=12):
         if len(self.samples) < cap:
             self.samples.append(item)
@@ -399,6 +411,7 @@ class ShardResult:
     def pack(self):
         d = dict(self.__dict__)
         d['distinct'] = self.distinct.compact()
+        d['covered'] = {k: sorted(v) for k, v in self.covered.items()}
         return d
 
 
@@ -427,6 +440,9 @@ def merge_shards(packed_list):
         for k, v in d['reach'].items():
             total.reach[k] = total.reach.get(k, 0) + v
         total.notes.extend(d['notes'])
+        for k, v in d.get('covered', {}).items():
+            total.covered.setdefault(k, set()).update(v)
+        total.cover_sizes.update(d.get('cover_sizes', {}))
         total.truncated = total.truncated or d['truncated']
         if d['inconclusive'] and not total.inconclusive:
             total.inconclusive = d['inconclusive']
@@ -622,6 +638,13 @@ def run_check(prop, module_name, tier, seed, spec):
         'verdict': {0: 'held on what was observed', 1: 'violated', 2: 'inconclusive'}[status],
         'exhaustive': False,
     }
+    if total.covered:
+        coverage['finite_subspaces_reached'] = {
+            k: ({'reached': len(v), 'of': total.cover_sizes[k]} if k in total.cover_sizes else {'reached': len(v)})
+            for k, v in sorted(total.covered.items())}
+        for k, v in sorted(total.covered.items()):
+            of = total.cover_sizes.get(k)
+            out_lines.append('  covered %-36s %d%s' % (k, len(v), (' of %d' % of) if of else ''))
     if total.notes:
         coverage['notes'] = total.notes[:40]
     if reason:
